@@ -79,6 +79,10 @@ def check_json(inp):
                 if key in j and exp_scores[i] is not None:
                     if j[key] != exp_scores[i] or type(j[key]) is not float:
                         fails.append(failure(exp_scores[i], repr(j[key]), note="%s %s" % (tag, key)))
+                elif key in j and exp_scores[i] is None and j[key] is not None:
+                    # an UNDEFINED v2 score (scores() says None) reported as a number: there is no 'corresponding defined score' it could equal
+                    fails.append(failure("no %s field (or null) for an undefined score" % key, repr(j[key]), key="v2.json.undefined-score-as-zero",
+                                         note="%s: scores() reports None for this slot" % tag))
             for i, key in enumerate(SEV_KEYS[ver]):
                 if key in j:
                     want = band(exp_scores[i])
